@@ -462,7 +462,7 @@ class AcceptedOnRetry(Exception):
     """process() refused the document, and the same parser object asked again returned contents."""
 
 
-def run_parse(text: str, route: str, again: int = 0):
+def run_parse(text: str, route: str, again: int = 0, repair: bool = False):
     """Parse; with `again`, the same parser object is asked again after a refusal: a document that
     holds an invalid out event must be refused every time."""
     from dznpy.json_ast import DznJsonAst, DznJsonError  # pylint: disable=import-outside-toplevel
@@ -479,7 +479,42 @@ def run_parse(text: str, route: str, again: int = 0):
                 except (DznJsonError, NamespaceIdsTypeError):
                     continue
                 raise AcceptedOnRetry(f'attempt {attempt + 2}') from first
+            if repair:
+                # the caller mends the loaded document in place (parser.ast) - every out-event
+                # gets a void reply and in-parameters only - and parses again; after that the
+                # original text, given to a new parser, is still the document it was
+                _mend_out_events(inst.ast)
+                try:
+                    inst.process()
+                except (DznJsonError, NamespaceIdsTypeError):
+                    pass
+                try:
+                    DznJsonAst(data).process()
+                except (DznJsonError, NamespaceIdsTypeError):
+                    raise first from None
+                raise AcceptedOnRetry('by a new parser, after an earlier copy was mended in place') \
+                    from first
             raise
+
+
+def _mend_out_events(node):
+    if isinstance(node, dict):
+        if node.get('<class>') == 'event' and node.get('direction') == 'out':
+            sig = node.get('signature')
+            if isinstance(sig, dict):
+                tname = sig.get('type_name')
+                if isinstance(tname, dict) and isinstance(tname.get('ids'), list):
+                    tname['ids'][:] = ['void']
+                formals = sig.get('formals')
+                if isinstance(formals, dict) and isinstance(formals.get('elements'), list):
+                    for formal in formals['elements']:
+                        if isinstance(formal, dict) and formal.get('direction') in ('out', 'inout'):
+                            formal['direction'] = 'in'
+        for val in list(node.values()):
+            _mend_out_events(val)
+    elif isinstance(node, list):
+        for val in node:
+            _mend_out_events(val)
 
 
 def judge(text: str, route: str, doc, case: dict, mutations: list, ns_depth=None) -> dict:
@@ -493,8 +528,11 @@ def judge(text: str, route: str, doc, case: dict, mutations: list, ns_depth=None
     outcome = None
     again = 2 if (ns_depth is None and (case.get('must_refuse') or
                                         len(text) % 4 == 0)) else 0
+    repair = bool(again and case.get('must_refuse') and len(text) % 2 == 0)
+    if repair:
+        counts['refused_documents_mended_in_place_then_reparsed'] = 1
     try:
-        got = run_parse(text, route, again)
+        got = run_parse(text, route, again, repair)
     except AcceptedOnRetry as exc:
         counts['retries_on_same_parser'] = 1
         flags = refusal_flags(doc)
@@ -690,7 +728,7 @@ def main(tier: str) -> int:
     items += [('group', run.seed, g) for g in range(groups)]
     run.require('outcome_returned', 'outcome_DznJsonError', 'outcome_NamespaceIdsTypeError',
                 'outevent_refusals_checked', 'canary_depths_checked', 'base_parsed',
-                'fixed_documents')
+                'fixed_documents', 'refused_documents_mended_in_place_then_reparsed')
     for _item, out in run.pmap(_worker, items, chunksize=4 if tier == 'quick' else 25):
         if isinstance(out, dict):          # harness error of a whole work item
             common.absorb(run, {}, out)
